@@ -120,7 +120,10 @@ namespace parmcb {
         typename boost::property_map<Graph, boost::edge_weight_t>::type weight = get(boost::edge_weight, graph);
 
         while (fgets(buffer, sizeof(buffer), fp) != NULL) {
-            buffer[strlen(buffer) - 1] = '\0'; // eat the newline
+            std::size_t len = strlen(buffer);
+            if (len > 0 && buffer[len - 1] == '\n') {
+                buffer[len - 1] = '\0'; // eat the newline
+            }
             if (buffer[0] == 'c' || buffer[0] == '#') {
                 continue;
             } else if (buffer[0] == 'p') {
